@@ -273,6 +273,7 @@ fn socket_scenario(ty: Ty, cuts: Vec<usize>) -> Verdict {
         nested_env: false,
         yields: false,
         select: false,
+        policy: 0,
     });
     let (stream, _wire, expect) = socket_stream(ty);
     let c = e3::raw_conn("p");
